@@ -7,7 +7,7 @@
                   and the model's loader agrees with the real loader on every observed state;
      check_spec : clauses (a) (b) (c) of the property on the observations alone.                                   *)
 From Coq Require Import List NArith Bool.
-Require Import QV.common.Util QV.C11.Model QV.C11.Spec.
+Require Import QV.common.Util QV.C11.Model QV.C11.Spec QV.C11.Guard.
 Import ListNotations.
 Open Scope N_scope.
 
@@ -170,18 +170,29 @@ Definition check_spec (c : case) : bool :=
 Definition dup_guard_op (o : op) : bool :=
   match o with OStore n | OOverwrite n => consistentb n | _ => true end.
 
-Fixpoint hist_guards (b : backend) (d : disk) (c : cache) (l : list op) : bool * bool :=
-  match l with
-  | [] => (true, true)
-  | o :: r =>
-      let '(g1, g2) := match plan_of current b d c o with
-                       | PErr _ => hist_guards b d c r
-                       | PNoop c' => hist_guards b d c' r
-                       | PSteps s c' => hist_guards b (run s d) c' r
-                       end in
-      (dup_guard_op o && g1, guard_C11_cycle d c o && g2)
+(* round 3: the buffer guard of the operation, if the operation gets as far as flushing a buffer in this state *)
+Definition tx_guard_op (b : backend) (d : disk) (c : cache) (o : op) : bool :=
+  match plan_of current b d c o with
+  | PSteps _ _ => guard_C11_tx d c o
+  | _ => true
   end.
 
+(* (dup guard, cycle guard, buffer guard) over a failure-free history *)
+Fixpoint hist_guards (b : backend) (d : disk) (c : cache) (l : list op) : bool * bool * bool :=
+  match l with
+  | [] => (true, true, true)
+  | o :: r =>
+      let '(g1, g2, g3) := match plan_of current b d c o with
+                           | PErr _ => hist_guards b d c r
+                           | PNoop c' => hist_guards b d c' r
+                           | PSteps s c' => hist_guards b (run s d) c' r
+                           end in
+      (dup_guard_op o && g1, guard_C11_cycle d c o && g2, tx_guard_op b d c o && g3)
+  end.
+
+(* A rejected case belongs to a known finding iff the implementation behaved exactly as the model predicts and some
+   operation of the case flushes a buffer outside guard_C11_tx (with all buffers inside the guard, C11_crash_safe_tx
+   excludes the rejection).  Which finding: 1 if some template is outside guard_C11_dup_id, else 2. *)
 Definition finding_of (c : case) : N :=
   match c with
   | CCrash => 0
@@ -191,14 +202,14 @@ Definition finding_of (c : case) : N :=
       let pl := plan_of current b d0 c0 fin in
       let states := prefix_states (steps_of pl) d0 in
       let c1 := match pl with PSteps _ c' | PNoop c' => c' | PErr _ => c0 end in
-      let '(h1, h2) := hist_guards b empty_disk [] hist in
+      let '(h1, h2, h3) := hist_guards b empty_disk [] hist in
       let post_dup := match post with Some po => negb (dup_guard_op po) | None => false end in
-      let post_cyc := match post with
-                      | Some po => existsb (fun dk => negb (guard_C11_cycle dk c0 po) || negb (guard_C11_cycle dk [] po)) states
-                                   || negb (guard_C11_cycle (run (steps_of pl) d0) c1 po)
-                      | None => false
-                      end in
-      if negb h1 || negb (dup_guard_op fin) || post_dup then 1
-      else if negb h2 || negb (guard_C11_cycle d0 c0 fin) || post_cyc then 2
-      else 0
+      let post_tx := match post with
+                     | Some po => existsb (fun dk => negb (tx_guard_op b dk c0 po) || negb (tx_guard_op b dk [] po)) states
+                                  || negb (tx_guard_op b (run (steps_of pl) d0) c1 po)
+                     | None => false
+                     end in
+      if h3 && tx_guard_op b d0 c0 fin && negb post_tx then 0
+      else if negb h1 || negb (dup_guard_op fin) || post_dup then 1
+      else 2
   end.
